@@ -477,7 +477,7 @@ pub fn run(case: &SpCase, trace: bool) -> SpResult {
                         let (n_w, n_r) = if by2.incoming { (by2.n_to_sock, by2.n_from_sock) } else { (by2.n_from_sock, by2.n_to_sock) };
                         exchange(stream.split(), Some(token(0, by2.key)), Stream::new(by2.key, 0), n_w, Stream::new(by2.key, 1), n_r, 20, t0, move |f| f(&mut r4.lock().connector)).await;
                     }
-                    Err(e) => r2.lock().connect = CallOut::Err((tokio::time::Instant::now() - t0).as_micros() as u64, e.to_string()),
+                    Err(e) => r2.lock().connect = CallOut::Err((tokio::time::Instant::now() - t0).as_micros() as u64, format!("{e:?}: {e}")),
                 }
             });
         }
